@@ -1,0 +1,28 @@
+//go:build verif
+
+package crypto
+
+// Comment-only file: contracts read by /verif's govc (see pkg/oidc/zz_verif_contracts.go).
+
+// hashBitsOf is written from the OIDC specification (at_hash uses the hash of the JOSE alg):
+// *256 -> SHA-256, *384 -> SHA-384, *512 and EdDSA -> SHA-512, anything else unsupported (0).
+//@ spec func hashBitsOf(alg string) int =
+//@     ite(alg == "RS256" || alg == "ES256" || alg == "PS256", 256,
+//@     ite(alg == "RS384" || alg == "ES384" || alg == "PS384", 384,
+//@     ite(alg == "RS512" || alg == "ES512" || alg == "PS512" || alg == "EdDSA", 512, 0)))
+
+// hashid(h): which hash function a hash.Hash value computes (established by the assumed specs
+// of sha256.New / sha512.New384 / sha512.New); hashString: definitional view of HashString.
+//@ spec func hashid(h Val) int
+//@ spec func hashString(bits int, s string, firstHalf bool) string
+
+//@ func crypto.GetHashAlgorithm
+//@   modifies nothing
+//@   ensures known: err == nil <==> hashBitsOf(str(sigAlgorithm)) != 0
+//@   ensures bits: err == nil ==> valid(result0) && hashid(result0) == hashBitsOf(str(sigAlgorithm))
+//@   ensures fail: err != nil ==> result0 == nil
+
+//@ func crypto.HashString
+//@   trusted
+//@   modifies os(hash)
+//@   defines value: hash != nil ==> result == hashString(hashid(hash), s, firstHalf)
